@@ -119,7 +119,10 @@ func Locate(root *der.Node) (*SD, error) {
 	}
 	sd.EncapCI = ch[i]
 	sd.EType = ch[i].Children[0]
-	if len(ch[i].Children) > 1 && ch[i].Children[1].Ctx(0) {
+	// eContent is [0] EXPLICIT: a constructed context element. Something else in that slot (a primitive [0], another
+	// tag) is not encapsulated content in any reading; the weakest predicate then has nothing to compare the
+	// message digest with, like a decoder that skips what it does not recognise.
+	if len(ch[i].Children) > 1 && ch[i].Children[1].Ctx(0) && ch[i].Children[1].Constructed {
 		sd.EContent0 = ch[i].Children[1]
 	}
 	i++
